@@ -239,10 +239,56 @@ def impl_lines(case):
 	return [parserutil.run(side, [f for f in fr if f]) for fr in fragments(wire, case[-1])]
 
 
+def reused_message_oracle(pieces):
+	"""one message object used for two exchanges, the second representation handed over as a Body object made of pieces (and the
+	same for a request): the opposite state machine reads exactly the second content"""
+	from httoop import Request, Response
+	from httoop.client import ClientStateMachine
+	from httoop.server import ServerStateMachine
+	from httoop.messages.body import Body
+	from httoop.semantic.request import ComposedRequest
+	from httoop.semantic.response import ComposedResponse
+	first = [p for p in pieces if p] or [b'0123456789']
+	second = [b'the second representation, ', b'which is considerably longer than the first one ' * 2, b'', b'end']
+	get = Request('GET', '/r')
+	resp = Response(200, body=Body(list(first)))
+	c = ComposedResponse(resp, get)
+	c.prepare()
+	b''.join(c)
+	resp.body = Body(list(second))
+	c.prepare()
+	w = b''.join(c)
+	sm = ClientStateMachine()
+	sm.request = get
+	out = list(sm.parse(w))
+	if len(out) != 1 or bytes(out[0].body) != b''.join(second) or sm.buffer:
+		return 'a response object used for a second exchange with a new Body object of pieces: sent %d octets of content, the client read %r and kept %d octets' % (len(b''.join(second)), [bytes(o.body)[:40] for o in out], len(sm.buffer))
+	req = Request('POST', '/r', body=Body(list(first)))
+	req.headers['Host'] = 'h'
+	c = ComposedRequest(req)
+	c.prepare()
+	b''.join(c)
+	req.body = Body(list(second))
+	c.prepare()
+	w = b''.join(c)
+	sm = ServerStateMachine('http', 'h', 80)
+	out = [x[0] for x in sm.parse(w)]
+	if len(out) != 1 or bytes(out[0].body) != b''.join(second) or sm.buffer:
+		return 'a request object used for a second exchange with a new Body object of pieces: sent %d octets of content, the server read %r and kept %d octets' % (len(b''.join(second)), [bytes(o.body)[:40] for o in out], len(sm.buffer))
+	return None
+
+
 def oracle(case):
 	_, kind, method, segs, query, status, reason, version, fields, source, pieces, chunked, coding, seed = case
 	from httoop.client import ClientStateMachine
 	from httoop.server import ServerStateMachine
+	if seed % 9 == 0 and source in ('list', 'bytes'):
+		try:
+			r0 = reused_message_oracle(pieces)
+		except Exception as e:
+			r0 = 'a message object used for a second exchange raised %s: %s' % (exc_name(e), e)
+		if r0:
+			return {'what': r0, 'case': describe(case), 'finding': None}
 	try:
 		m, req, wire = compose(case)
 	except Exception as e:
